@@ -56,7 +56,22 @@ class World:
                 realmod = sys.modules.get(vm)
                 if realmod is not None and getattr(realmod, vn, None) is val and hasattr(self.clones[vm], vn):
                     ns[key] = getattr(self.clones[vm], vn)
+        # module objects replaced by models: also re-point functions of those modules that the
+        # source captured in module-level tables (e.g. labels._LABEL_PARSERS -> base64.b64decode)
+        swapped = {}
+        for key, model in (post or {}).items():
+            old = ns.get(key)
+            if isinstance(old, types.ModuleType):
+                swapped[old.__name__] = model
         ns.update(post or {})
+        if swapped:
+            for val in list(ns.values()):
+                if type(val) is dict:
+                    for k2, v2 in list(val.items()):
+                        m2 = getattr(v2, "__module__", None)
+                        n2 = getattr(v2, "__name__", None)
+                        if m2 in swapped and isinstance(n2, str) and getattr(sys.modules.get(m2), n2, None) is v2:
+                            val[k2] = getattr(swapped[m2], n2)
         self.clones[modname] = mod
         return mod
 
